@@ -301,6 +301,43 @@ func sweep(e *emitter, machine string, thorough bool) {
 				}
 			}
 		}
+		// return paths: for every transition that calls a sub-machine (pushing a return state), the
+		// shortest body that returns at once, followed by every byte - a wrong pushed return state is
+		// otherwise visible only through whatever the right state would have rejected
+		for _, q := range states {
+			for b := 0; b < 256; b++ {
+				isCall := false
+				for _, r := range m.Rows[fmt.Sprint(q)] {
+					if r[0] <= b && b <= r[1] && r[2] > 0 && r[2] < len(m.Blocks) {
+						for _, u := range m.Blocks[r[2]] {
+							if u.Kind == "UCall" {
+								isCall = true
+							}
+						}
+					}
+				}
+				if !isCall {
+					continue
+				}
+				closer := byte(']')
+				if b == '{' {
+					closer = '}'
+				}
+				for c := 0; c < 256; c++ {
+					for _, tail := range []string{"", "5]", "]", "}", "5}"} {
+						in := append(append(append([]byte{}, acc[q]...), byte(b), closer, byte(c)), tail...)
+						h := hs(in)
+						for _, op := range sweepOps[machine] {
+							if strings.HasPrefix(op, "rsb 22") {
+								e.emit("rsb 22%s - 0", strings.TrimPrefix(h, "-"))
+							} else {
+								e.emit(op, h)
+							}
+						}
+					}
+				}
+			}
+		}
 		e.emit("# sweep %s: %d of %d states reached, %d with a completion", machine, len(acc), len(m.States)-1, len(comp))
 	}
 }
